@@ -288,6 +288,14 @@ class Impl:
         G, F = self.wrapper.G, self.wrapper.Fv
         self.last_line = "solve.ok G=%s F=%s" % (";".join(",".join(showrat(v) for v in row) for row in G), ",".join(showrat(v) for v in F))
         return "ok " + showrat(float(ret))
+    def op_solve_okp(self, seed):
+        self.wrapper = SolvingWrapper(int(seed))
+        import io, contextlib
+        with contextlib.redirect_stdout(io.StringIO()):
+            ret = self.pep._solve_with_wrapper(self.wrapper, verbose=0, return_primal_or_dual="primal")
+        G, F = self.wrapper.G, self.wrapper.Fv
+        self.last_line = "solve.okp G=%s F=%s" % (";".join(",".join(showrat(v) for v in row) for row in G), ",".join(showrat(v) for v in F))
+        return "ok " + showrat(float(ret))
     def op_solve_fail(self):
         self.wrapper = ScriptedWrapper(); self.pep._solve_with_wrapper(self.wrapper, verbose=0); return "ok"
     def _ev(self, fn):
@@ -490,15 +498,30 @@ def gen_resolve(seed):
     if rnd.random() < .5:
         a = expr(); inner = expr(); b = p.newe(); p.emit("ex.addc %s %s %s" % (b, inner, rnd.choice(["1", "-2", "1/2"])))
         p.emit("pep.psd 2 %s %s %s %s" % (a, b, b, a) if rnd.random() < .7 else "pep.psd 2 %s %s %s %s" % (b, a, a, b))
+    if rnd.random() < .4:
+        # function-level LMI with a constant entry (its multiplier contributes to the returned dual value)
+        a = expr(); inner = expr(); b = p.newe(); p.emit("ex.addc %s %s %s" % (b, inner, rnd.choice(["1", "-2", "1/2"])))
+        p.emit("fn.psd %s 2 %s %s %s %s" % (rnd.choice(p.F), b, a, a, b))
+    # a combination whose first term is a leaf with coefficient exactly 1 (x0 - gamma*g style): evaluating it
+    # must not disturb the value of that leaf
+    lead = p.P[0]; other = rnd.choice(p.P); q = p.newp(); p.emit("pt.lin %s 1 %s %s %s" % (q, lead, rnd.choice(["-1/2", "2", "-1"]), other))
     held_c = [cons() for _ in range(rnd.randint(0, 2))]      # constraints never sent
     for _ in range(rnd.randint(3, 14)):
         r = rnd.random()
-        if r < .25: p.emit("solve.ok %d" % rnd.randint(0, 10**6))
+        if r < .18:
+            p.emit("solve.ok %d" % rnd.randint(0, 10**6))
+            if rnd.random() < .5: p.emit("eval.ptn %s" % q); p.emit("eval.ptn %s" % lead); p.emit("eval.ptn %s" % other)
+        elif r < .25: p.emit("solve.okp %d" % rnd.randint(0, 10**6))
+        elif r < .29:
+            f = rnd.choice(p.F); p.sample_ops(f, 1)               # the model grows between solves
+        elif r < .32:
+            p.emit("dump.tables %s" % rnd.choice(p.F))
         elif r < .32: p.emit("solve.fail")
         elif r < .5 and p.E: p.emit("eval.ex %s" % rnd.choice(p.E))
         elif r < .65 and p.C: p.emit("eval.cons %s" % rnd.choice(p.C))
         elif r < .78 and p.C: p.emit("eval.dual %s" % rnd.choice(p.C))
-        elif r < .9: p.emit("eval.ptn %s" % rnd.choice(p.P))
+        elif r < .9:
+            for x in rnd.sample(p.P, min(len(p.P), rnd.choice([1, 1, 3, 5]))): p.emit("eval.ptn %s" % x)   # bursts: derived points, then the leaves they are made of
         elif r < .95: p.emit("pep.addcons %s" % cons())
         else: p.point(); expr()
     return p.lines
